@@ -200,10 +200,20 @@ def run(tier):
     if unexercised:
         raise vlib.ToolError(f"actions of Redir.tla not exercised: {unexercised}")
 
+    # P1 with the choices POSIX leaves open resolved the other way (EMFILE before
+    # open's side effects, the subshell keeps the limit): the oracle must allow both
+    if tier == "thorough":
+        r = vlib.tlc("Redir", "Redir_posix.cfg", workers=8, timeout=1800, deadlock=True)
+        vlib.tlc_must_pass(r, "model check Redir_posix.cfg")
+        vlib.log(f"[tlc] posix choices: {r.distinct} distinct states, {r.wall:.1f}s")
+        states += r.distinct
+        transitions += r.generated
+
     # P1 + P2: model check every scenario of the tier's families, emit them
     fam = FAMILY[tier]
     gen = os.path.join(wd, f"{fam}.scen.ndjson")
-    r = vlib.tlc("Redir", f"Redir_{fam}.cfg", workers=8, timeout=3000, json_out=gen, deadlock=True, xmx="8g")
+    r = vlib.tlc("Redir", f"Redir_{fam}.cfg", workers=8, timeout=3000 if tier == "quick" else 14000, json_out=gen, deadlock=True,
+                 xmx="8g")
     vlib.tlc_must_pass(r, f"model check Redir_{fam}.cfg")
     scenarios = vlib.count_lines(gen)
     vlib.log(f"[tlc] {fam}: {r.distinct} distinct states, {r.generated} generated, depth {r.depth}, "
